@@ -73,6 +73,10 @@ def run(chk):
                 if all(s[i] == "-" for s in seqs):
                     seqs[0] = seqs[0][:i] + rng.choice(alpha) + seqs[0][i + 1:]
         alignments.append(seqs)
+    # a fully degenerate site: all 20 amino acids observed in one column (also 21 symbols, also with a gap) - the site still accepts
+    # exactly the observed symbols
+    from harness.gen import AA as _AA20
+    alignments += [["C" + a + "F" for a in _AA20], ["C" + a + "F" for a in _AA20 + "X"] + ["C-F"], [a + "W" for a in _AA20[:19]] + ["-W"]]
     for seqs in alignments:
         order = "".join(sorted(set("".join(seqs)) - {"-"}))
         rx = core.call_real(lambda: util.seqs_to_regex(seqs, align=False))
@@ -121,7 +125,7 @@ def run(chk):
             for w in list(lang)[:40]:
                 for i in range(len(w) + 1):
                     probe.add(w[:i] + w[i + 1:])
-                    for c in order[:3] + "Q":
+                    for c in order[:3] + "Qx":
                         probe.add(w[:i] + c + w[i:])
                         probe.add(w[:i] + c + w[i + 1:])
             for w in sorted(probe)[:300]:
